@@ -246,6 +246,43 @@ pub fn record_wlimit(seed: u64, thorough: bool, path: &str) -> Value {
         }
     }
     set_fsize_limit(None);
+    // serialize::serialize_to on a file that cannot take the whole structure: every limit below the size, and /dev/full
+    {
+        use simple_sds::serialize::{self, Serialize};
+        use simple_sds::ops::{Rank, Select, SelectZero};
+        use simple_sds::raw_vector::AccessRaw;
+        let mut iv = IntVector::new(13).unwrap();
+        for _ in 0..45 { iv.push(rng.next() & 0x1FFF); }
+        let mut bv = { let mut r = RawVector::with_len(if thorough { 1 << 17 } else { 20000 }, false); for i in (0..r.len()).step_by(7) { r.set_bit(i, true); } simple_sds::bit_vector::BitVector::from(r) };
+        bv.enable_rank(); bv.enable_select(); bv.enable_select_zero();
+        let text = String::from("size limits and short tails: ñandú €");
+        let small: Vec<u64> = vec![1, 2, 3];
+        macro_rules! sweep { ($x:expr, $name:expr, $step:expr) => {{
+            let size = $x.size_in_bytes();
+            let mut limit = 0usize;
+            while limit <= size + 8 {
+                let fname = scratch("verif-serialize-to");
+                set_fsize_limit(Some(limit as u64));
+                let res = guarded(|| serialize::serialize_to(&$x, &fname));
+                set_fsize_limit(None);
+                let on_disk = std::fs::metadata(&fname).map(|m| m.len() as usize).unwrap_or(0);
+                let _ = std::fs::remove_file(&fname);
+                out.push(json!({"e": "st", "what": $name, "limit": limit, "size": size, "result": match res { Ok(Ok(())) => "ok", Ok(Err(_)) => "err", Err(_) => "panic" }, "file_complete": on_disk == size}));
+                runs += 1;
+                limit += $step;
+            }
+            if std::path::Path::new("/dev/full").exists() {
+                let res = guarded(|| serialize::serialize_to(&$x, "/dev/full"));
+                out.push(json!({"e": "st", "what": $name, "limit": 0, "size": size, "result": match res { Ok(Ok(())) => "ok", Ok(Err(_)) => "err", Err(_) => "panic" }, "file_complete": false}));
+                runs += 1;
+            }
+        }} }
+        sweep!(iv, "IntVector", 8);
+        sweep!(text, "String", 8);
+        sweep!(small, "Vec<u64>", 8);
+        sweep!(bv, "BitVector with supports", if thorough { 512 } else { 256 });
+    }
+    set_fsize_limit(None);
     out.write(path);
     json!({"runs": runs, "queries": runs, "events": out.lines.len(), "sample": serde_json::from_str::<Value>(&out.lines[out.lines.len() / 2]).unwrap()})
 }
